@@ -115,7 +115,7 @@ _mk_subdivide(2)
 
 
 def _mk_to_size(max_iter):
-    @contract("C18", RM + ".subdivide_to_size", name="no-edge-longer-than-the-bound[max_iter=%d]" % max_iter, kind="bounded-shape", raises=(ValueError,), timeout=60000, max_paths=200, note="one triangle, every real vertex position and bound")
+    @contract("C18", RM + ".subdivide_to_size", name="no-edge-longer-than-the-bound[max_iter=%d]" % max_iter, kind="bounded-shape", raises=(ValueError,), timeout=180000, budget=1200, max_paths=200, note="one triangle, every real vertex position and bound")
     def to_size(h):
         V = h.reals("v", (3, 3))
         L = h.real("L")
